@@ -487,3 +487,142 @@ class C10NoSpam(Monitor):
                          'title': t1.strip().splitlines()[0][:40]}))
                     break
         return out[:2]
+
+
+class C15Reset(Monitor):
+    """reset / force_reset against the harness' own record of manual work."""
+    name = 'C15'
+
+    def start(self, hist):
+        C10NoSpam.wrap_handlers()
+
+    def _w_of(self, heads, src):
+        return sorted(n for n in heads if n.startswith('w/') and
+                      n.split('/', 2)[2] == src)
+
+    def _dst_of(self, heads, wname):
+        ver = wname.split('/')[1]
+        for cand in ('development/' + ver, 'stabilization/' + ver):
+            if cand in heads:
+                return cand
+        return None
+
+    def before_job(self, hist, job, step):
+        C10NoSpam.executions = []
+        self.pre = None
+        if type(job).__name__ != 'PullRequestJob':
+            return
+        w = hist.world
+        pid = job.pull_request.id
+        if pid not in w.prs:
+            return
+        src = w.prs[pid]['src']
+        heads = w.heads()
+        ws = self._w_of(heads, src)
+        lossy, pristine = [], True
+        for wn in ws:
+            dst = self._dst_of(heads, wn)
+            if not dst:
+                pristine = False
+                continue
+            for sha, info in sorted(w.manual_commits.items()):
+                if info['on'] == wn and \
+                        w.is_ancestor(sha, heads[wn]) and \
+                        not w.is_ancestor(sha, heads[dst]):
+                    lossy.append((sha, info['kind'], wn))
+            out = w.g('log', '--format=%H %an', '%s..%s' %
+                      (heads[dst], heads[wn]), cwd=w.remote)
+            for line in out.splitlines():
+                sha, author = line.split(' ', 1)
+                if author == ROBOT:
+                    continue
+                if src in heads and w.is_ancestor(sha, heads[src]):
+                    continue
+                pristine = False
+        self.pre = {'pid': pid, 'src': src, 'ws': ws, 'lossy': lossy,
+                    'pristine': pristine and bool(ws)}
+
+    def after_job(self, hist, res, step):
+        ex = [k for _, k in C10NoSpam.executions
+              if k in ('reset', 'force_reset')]
+        C10NoSpam.executions = []
+        if not ex or not self.pre or \
+                res.status not in ('ResetComplete', 'LossyResetWarning'):
+            return
+        cmd = ex[0]
+        pre = self.pre
+        out = []
+        changed = [(old, new, ref[len(H):]) for tx in res.txs
+                   for a, old, new, ref in tx
+                   if a == 'berte' and ref.startswith(H)]
+        hist.count('c15_' + cmd)
+        hist.flags.add('c15_reset_seen')
+        kinds = sorted(set(k for _, k, _ in pre['lossy']))
+        if pre['lossy']:
+            hist.count('c15_with_manual_work')
+            hist.flags.add('c15_manual')
+        if cmd == 'reset':
+            if pre['lossy'] and res.status != 'LossyResetWarning':
+                out.append((
+                    'C15: reset completed and discarded manual work on PR '
+                    '#%d: %s' % (pre['pid'], [(s[:10], k, wn) for s, k, wn in
+                                              pre['lossy']]),
+                    {'monitor': 'C15', 'clause': 'lossy_reset_not_refused',
+                     'manual_kinds': '+'.join(kinds)}))
+            elif not pre['lossy'] and pre['pristine'] and \
+                    res.status != 'ResetComplete':
+                out.append((
+                    'C15: reset refused although the integration branches '
+                    'of PR #%d hold only robot commits and source commits'
+                    % pre['pid'],
+                    {'monitor': 'C15', 'clause': 'pristine_reset_refused'}))
+            elif not pre['lossy'] and not pre['pristine']:
+                hist.count('c15_either_' + res.status)
+        else:
+            if res.status != 'ResetComplete':
+                out.append(('C15: force_reset did not complete (%s)' %
+                            res.status,
+                            {'monitor': 'C15',
+                             'clause': 'force_reset_refused'}))
+        if res.status == 'LossyResetWarning' and changed:
+            out.append(('C15: reset refused but changed refs %s' %
+                        [c[2] for c in changed],
+                        {'monitor': 'C15', 'clause': 'refusal_not_clean'}))
+        if res.status == 'ResetComplete':
+            foreign = [c[2] for c in changed if c[2] not in pre['ws']]
+            if foreign:
+                out.append(('C15: %s touched refs outside the PR\'s '
+                            'integration branches: %s' % (cmd, foreign),
+                            {'monitor': 'C15', 'clause': 'reset_touched_other',
+                             'cmd': cmd}))
+            left = [wn for wn in pre['ws'] if wn in res.heads1]
+            if left:
+                out.append(('C15: %s completed but %s remain' % (cmd, left),
+                            {'monitor': 'C15', 'clause': 'reset_incomplete',
+                             'cmd': cmd}))
+            hist.mon_state['c15_rebuild'] = {'pid': pre['pid'],
+                                             'ws': pre['ws']}
+        return out[:2]
+
+
+class C15Rebuild(Monitor):
+    """After a completed reset the next evaluation rebuilds the w/ branches
+    (when it gets as far as the approval/build gates)."""
+    name = 'C15b'
+    PAST_CREATION = ('ApprovalRequired', 'BuildNotStarted', 'BuildInProgress',
+                     'BuildFailed', 'Queued')
+
+    def after_job(self, hist, res, step):
+        rb = hist.mon_state.get('c15_rebuild')
+        if not rb or type(res.job).__name__ != 'PullRequestJob' or \
+                res.job.pull_request.id != rb['pid'] or \
+                res.status in ('ResetComplete', 'LossyResetWarning'):
+            return
+        hist.mon_state['c15_rebuild'] = None
+        if res.status in self.PAST_CREATION:
+            hist.count('c15_rebuild_checked')
+            missing = [wn for wn in rb['ws'] if wn not in res.heads1]
+            if missing:
+                return [('C15: after reset, evaluation (%s) did not rebuild '
+                         '%s' % (res.status, missing),
+                         {'monitor': 'C15', 'clause': 'not_rebuilt'})]
